@@ -220,9 +220,29 @@ def c07RoundMonitor (out : String) : Bool × String := Id.run do
   let mut prevQs : List Query := []
   let mut prevAs : List Oracle.Agg := []
   let mut h := 0
+  let mut cur : Option (String × Nat) := none      -- current cycle-list query and sequence number after the previous block
+  let mut replaced := false                         -- the cycle list was replaced by governance in this block
+  let mut qsAtC : List Query := []                  -- the Query collection after the previous block (as of its C record)
   for rec in out.splitOn " ;; " do
     match rec.splitOn " " with
     | "E" :: hS :: _ => h := (parseNat? hS).getD h
+    | "U" :: _ => replaced := true
+    | ["C", cq, seqS, _] =>
+      -- the cycle list moves on only when its current query has no open window (whoever opened it: rotation or a tip); the current
+      -- round of a query is its entry with the highest id.  The block after a governance replacement of the list is not judged (the
+      -- sequencer may point beyond the new list and is wrapped there).
+      let seq := (parseNat? seqS).getD 0
+      match cur with
+      | some (pq, pseq) =>
+        if !replaced && seq != pseq then
+          let mine := qsAtC.filter (fun q => q.qid == pq)
+          match mine.foldl (fun (acc : Option Query) q => match acc with | none => some q | some m => if q.id > m.id then some q else some m) none with
+          | some q => if q.exp > h then return (false, s!"the cycle list moved on from {pq} at h={h} although its current round {q.id} is open until {q.exp}")
+          | none => pure ()
+      | none => pure ()
+      cur := some (cq, seq)
+      qsAtC := qs
+      replaced := false
     | "Q" :: rest => qs := (commaList (" ".intercalate rest)).filterMap parseQuery
     | "A" :: rest => as := (commaList (" ".intercalate rest)).filterMap parseAggRec
     | "P" :: rest =>
